@@ -58,17 +58,104 @@ def rename(p, rnd, m=None):
     return mp.finish_program(q)
 
 
+def own_identifiers(p, fid):
+    """Identifiers of function fid's own scope (not of functions nested in it): {name: roles}."""
+    f = p['fns'][fid - 1]
+    out = {}
+
+    def add(nm, role):
+        out.setdefault(nm, set()).add(role)
+    for nm in f['params']:
+        add(nm, 'param')
+    exprs = set()
+
+    def walk_e(e):
+        if e and e not in exprs:
+            exprs.add(e)
+            for a in p['exprs'][e - 1]['args']:
+                walk_e(a)
+    for d in p['nodes']:
+        if d['fn'] != fid:
+            continue
+        for nm in d['tgt']:
+            add(nm, 'written')
+        if d['kind'] == 'with' and d['name']:
+            add(d['name'], 'written')
+        if d['kind'] == 'def':
+            add(d['name'], 'function')
+        for nm in d['args']:
+            add(nm, 'read')
+        if d['kind'] == 'call':
+            add(d['name'], 'read')
+        for h in d['handlers']:
+            if h.get('name'):
+                add(h['name'], 'written')
+        walk_e(d['e'])
+    for e in exprs:
+        x = p['exprs'][e - 1]
+        for nm in x['reads']:
+            add(nm, 'read')
+        if x['name']:
+            add(x['name'], 'read')
+    return {k: v for k, v in out.items() if k not in KEEP}
+
+
+def adversarial_variants(p, generated, rnd, k):
+    """Rename one user identifier to a name the converter really generated for the same function."""
+    out = []
+    cands = []
+    for fname, gens in generated.items():
+        fid = next((i + 1 for i, f in enumerate(p['fns']) if f['name'] == fname), 0)
+        if not fid:
+            continue
+        ids = own_identifiers(p, fid)
+        for u, roles in ids.items():
+            if u == p['fns'][0]['name']:
+                continue
+            for g in sorted(set(gens)):
+                if g in p['names']:
+                    continue
+                # identifiers that are never read are the hard case for a namer that reserves what is read
+                weight = 3 if 'read' not in roles else 1
+                weight += 2 if fid != 1 else 0
+                cands.append((weight, u, g))
+    rnd.shuffle(cands)
+    cands.sort(key=lambda c: -c[0])
+    seen = set()
+    for w, u, g in cands:
+        if (u, g) in seen:
+            continue
+        seen.add((u, g))
+        out.append(rename(p, None, {u: g}))
+        if len(out) >= k:
+            break
+    return out
+
+
 def programs(tier, seed):
     rnd = random.Random(seed)
     sk, r1 = skeleton.enumerate_skeletons(4, 3, 2)
-    step = 2 if tier == 'quick' else 1
+    step = 3 if tier == 'quick' else 1
     progs = skeleton.decorated(sk[seed % step::step], 1 if tier == 'quick' else 2, seed + 11)
     sk2, r2 = skeleton.enumerate_skeletons(3 if tier == 'quick' else 4, 2, 2, funcs=True)
     progs += skeleton.decorated([s for s in sk2 if 'def' in s], 1, seed + 12)
     progs += mprun.random_programs(200 if tier == 'quick' else 3000, seed + 13, lo=2, hi=3, maxdepth=3)
-    neutral = [p for p in progs if len(p['nodes']) <= 45]
-    progs = [rename(p, rnd) for p in neutral]
-    return progs, neutral, [r1, r2]
+    base = [p for p in progs if len(p['nodes']) <= 45]
+    # (a) random renaming into the converter vocabulary
+    neutral = list(base)
+    renamed = [rename(p, rnd) for p in base]
+    # (b) adversarial renaming guided by the names the real converter generates for the neutral program
+    dummy = [dict(pid=i + 1, dec=[], oc=True) for i in range(len(base))]
+    rp.replay_all(base, dummy, [dict(rp.OPTION_SETS[0], namer=True)], name='c11gen')
+    gen = {}
+    for pid, calls in rp.replay_all.namer.items():
+        for root, reserved, res, fname in calls:
+            gen.setdefault(pid, {}).setdefault(fname, []).append(res)
+    for i, p in enumerate(base):
+        for q in adversarial_variants(p, gen.get(i + 1, {}), rnd, 2 if tier == 'quick' else 4):
+            neutral.append(p)
+            renamed.append(q)
+    return renamed, neutral, [r1, r2]
 
 
 def subtree(p, fid):
